@@ -339,13 +339,110 @@ func phiLeaves(ph *ssa.Phi) []ssa.Value {
 // importRules evaluates another property's rules in a scratch ledger and files the obligations of the
 // named rules under this property's rule ids (a rule that is a necessary condition of both).
 func importRules(c *Ctx, run func(*Ctx), rename map[string]string) {
+	importRulesWhere(c, run, rename, nil)
+}
+
+// importRulesWhere: like importRules, restricted to the obligations keep accepts (by construct).
+func importRulesWhere(c *Ctx, run func(*Ctx), rename map[string]string, keep func(*Obligation) bool) {
 	sub := &Ctx{L: newLedger(c.L.Prop), P: c.P, Tier: c.Tier}
 	sub.L.P = c.P
 	run(sub)
 	for _, o := range sub.L.Obls {
+		if keep != nil && !keep(o) {
+			continue
+		}
 		if to, ok := rename[o.Rule]; ok {
 			o.Rule = to
 			c.L.add(o)
 		}
 	}
+}
+
+// rangeLoop: `for i, x := range s` over a slice as go/ssa lowers it - header block with the
+// index φ(-1, i+1), the test i+1 < len(s), the body entered on the true edge.
+type rangeLoop struct {
+	Hdr   *ssa.BasicBlock
+	Index ssa.Value // i+1, the index of the element visited in the body
+	Slice ssa.Value // the ranged slice (operand of len)
+	Body  *ssa.BasicBlock
+	Done  *ssa.BasicBlock
+}
+
+func rangeLoopsOf(fn *ssa.Function) []rangeLoop {
+	var out []rangeLoop
+	for _, b := range fn.Blocks {
+		iff := lastIf(b)
+		if iff == nil {
+			continue
+		}
+		cmp, ok := iff.Cond.(*ssa.BinOp)
+		if !ok || cmp.Op != token.LSS {
+			continue
+		}
+		inc, ok := cmp.X.(*ssa.BinOp)
+		if !ok || inc.Op != token.ADD {
+			continue
+		}
+		ph, ok := inc.X.(*ssa.Phi)
+		if !ok || ph.Block() != b || !isConst(inc.Y, "1") {
+			continue
+		}
+		init := false
+		back := false
+		for _, e := range ph.Edges {
+			if isConst(e, "-1") {
+				init = true
+			}
+			if e == ssa.Value(inc) {
+				back = true
+			}
+		}
+		ln, ok := cmp.Y.(*ssa.Call)
+		if !init || !back || !ok {
+			continue
+		}
+		if bi, ok := ln.Call.Value.(*ssa.Builtin); !ok || bi.Name() != "len" {
+			continue
+		}
+		out = append(out, rangeLoop{Hdr: b, Index: inc, Slice: ln.Call.Args[0], Body: b.Succs[0], Done: b.Succs[1]})
+	}
+	return out
+}
+
+// Blocks of the loop body (everything reachable from Body without passing the header).
+func (r rangeLoop) Blocks() map[*ssa.BasicBlock]bool {
+	set := map[*ssa.BasicBlock]bool{}
+	var walk func(b *ssa.BasicBlock)
+	walk = func(b *ssa.BasicBlock) {
+		if b == r.Hdr || set[b] {
+			return
+		}
+		set[b] = true
+		for _, s := range b.Succs {
+			walk(s)
+		}
+	}
+	walk(r.Body)
+	return set
+}
+
+// Whole: the only way out of the loop is exhaustion of the slice (no break, return or panic in
+// the body), so every element is visited.
+func (r rangeLoop) Whole() bool {
+	set := r.Blocks()
+	if set[r.Done] {
+		return false // the body can reach the exit block without going through the header
+	}
+	for b := range set {
+		if len(b.Succs) == 0 {
+			return false
+		}
+	}
+	return true
+}
+
+// isModuleCall: the call's static callee is a function of the module under analysis.
+func isModuleCall(ci ssa.CallInstruction) bool {
+	sc := staticCallee(ci.Common())
+	return sc != nil && isModuleFunc(sc)
 }
